@@ -3,8 +3,7 @@
 PROP = {
     "level_text_more": 'Two hardware addresses of 8 bytes that start like the 6-byte address of another client are part of the vocabulary.',
     "thorough_scale": 4,
-    "pkg": "internal/dhcpd",
-    "files": ["dhcpd/c10_world_test.go", "dhcpd/c10_machine_test.go", "dhcpd/c10_regress_test.go"],
+    "level_text_more": "The part 'overlap' re-runs the concurrent DHCP programs of C05 (messages handled in goroutines of their own next to static-lease calls) for their end-state check: leases.json = table in memory, nothing twice.",
     "level": "exploration",
     "technique": "property-based testing (rapid): stateful history machine over the production DHCPv4 server "
                  "(wire packets through the packet handler, static leases through the HTTP handlers, real "
@@ -35,11 +34,20 @@ PROP = {
                   "be given on load are not compared. Whether an exhausted pool may reuse entries of expired or "
                   "never acknowledged leases is left open (both outcomes accepted, the offer is checked like any "
                   "other). Trusts insomniacslk/dhcp for encoding/decoding packets, encoding/json, net/netip.",
-    "tests": [
-        ("TestVFC10Machine", (500, 4000), {"steps": 40}),
-        ("TestVFC10OfferWhenFree", (400, 2500)),
+    "parts": [
+        {"name": "histories", "pkg": "internal/dhcpd",
+         "files": ["dhcpd/c10_world_test.go", "dhcpd/c10_machine_test.go", "dhcpd/c10_regress_test.go"],
+         "tests": [
+             ("TestVFC10Machine", (500, 4000), {"steps": 40}),
+             ("TestVFC10OfferWhenFree", (400, 2500)),
+         ],
+         "plain": ["TestVFC10Regress"]},
+        # the generated concurrent programs written for C05 (one goroutine per DHCP message, as server4 runs them, next to
+        # static-lease calls): at rest leases.json must list exactly the leases in memory and no address or hardware
+        # address twice.  Their verdict counts for C10 too; their coverage counters stay with C05.
+        {"name": "overlap", "pkg": "internal/dhcpd", "files": ["dhcpd/c10_world_test.go", "dhcpd/c05_dhcp_test.go"],
+         "tests": [("TestVFC05DHCPPrograms", (60, 300)), ("TestVFC05DHCPLastAddress", (30, 60))], "shards": (2, 8)},
     ],
-    "plain": ["TestVFC10Regress"],
     "shards": (4, 16),
     "workers": (4, 16),
     "rule": "One evaluation = one generated history (TestVFC10Machine: drawn configuration (/24 or /28, pool of 2-8 "
